@@ -225,8 +225,9 @@ def _canon_comprehensions(txt: str) -> str:
     return norm(T().visit(_copy.deepcopy(ast.parse(txt, mode="eval").body)))
 
 
-def rule_r2(rep, program: Program):
-    r = rep.rule("R2", "finalize: n<2 guard before dividing by n-1, regularise, metric = inverse of the matrix built from the estimate, momentum re-sampled for every chain afterwards; step-size finalisation", floor=12)
+def rule_r2(rep, program: Program, prop=PROP, rule="R2"):
+    PROP = prop  # noqa: N806
+    r = rep.rule(rule, "finalize: n<2 guard before dividing by n-1, regularise, metric = inverse of the matrix built from the estimate, momentum re-sampled for every chain afterwards; step-size finalisation", floor=12)
     for cls, est, mat in (("OnlineVarianceMetricAdapter", "var_est", "PositiveDiagonalMatrix"), ("OnlineCovarianceMetricAdapter", "covar_est", "DensePositiveDefiniteMatrix")):
         f = program.method(cls, "finalize")
         import dataclasses
